@@ -316,3 +316,65 @@ fn c18_hmat_too_many_smbios_handles_refused() {
         panic!("memory side cache with 65536 SMBIOS handles returned: handle count field {}, structure length {}", le16_at(&b, 30), le32_at(&b, 4));
     }
 }
+
+// ---- CEDT
+/// C03 oracle: walk records with a 1-byte type, 1 reserved byte and a 2-byte length (CEDT style)
+fn walk_cedt(name: &str, b: &[u8], expect_types: &[u8]) {
+    let mut o = 36;
+    let mut seen = Vec::new();
+    while o < b.len() {
+        assert!(o + 4 <= b.len(), "{}: truncated record header at {}", name, o);
+        let l = le16_at(b, o + 2) as usize;
+        assert!(l >= 4 && o + l <= b.len(), "{}: record at {} (type {}, length {}) runs past the end of the image ({})", name, o, b[o], l, b.len());
+        seen.push(b[o]);
+        o += l;
+    }
+    assert_eq!(o, b.len(), "{}: walk did not land on the end", name);
+    assert_eq!(seen, expect_types, "{}: record types", name);
+}
+#[test]
+fn c03_cedt_records_are_self_describing() {
+    use acpi_tables::cedt::*;
+    let mut t = CEDT::new(*b"FOOBAR", *b"DECAFCOF", 1);
+    t.add_host_bridge(CxlHostBridge::new(7, CxlVersion::Cxl2, 0x1000));
+    let b = ser(&t);
+    check_table("CEDT+CHBS", &b);
+    walk_cedt("CEDT+CHBS", &b, &[0]);
+    // CHBS (CXL 3.0 table 9-21): type, reserved, length word 32, uid, version, reserved dword, base, length
+    assert_eq!(b.len(), 36 + 32);
+    assert_eq!(le32_at(&b, 36 + 4), 7);
+    assert_eq!(le32_at(&b, 36 + 8), 1);
+    assert_eq!(u64::from_le_bytes(b[36 + 16..36 + 24].try_into().unwrap()), 0x1000);
+    assert_eq!(u64::from_le_bytes(b[36 + 24..36 + 32].try_into().unwrap()), 0x1_0000);
+    let mut t = CEDT::new(*b"FOOBAR", *b"DECAFCOF", 1);
+    t.add_port_association(PortAssociation::new(1, 2, 3, 4, ProtocolType::CxlMem, 0x2000));
+    t.add_host_bridge(CxlHostBridge::new(7, CxlVersion::Cxl1_1, 0x1000));
+    let b = ser(&t);
+    check_table("CEDT+RDPAS+CHBS", &b);
+    walk_cedt("CEDT+RDPAS+CHBS", &b, &[3, 0]);
+}
+#[test]
+fn c11_cedt_window_restriction_bits_are_distinct() {
+    use acpi_tables::cedt::*;
+    let mk = || CxlFixedMemory::new(0, 0x1000_0000, InterleaveArithmetic::Modulo, InterleaveGranularity::Granularity256b, InterleaveWays::Ways1, 0);
+    let r = |mut f: CxlFixedMemory| { f.add_target(*b"CPU0"); le16_at(&ser(&f), 0x20) };
+    assert_eq!(r(mk()), 0);
+    assert_eq!(r(mk().cxl_type_2_memory()), 1 << 0, "CXL type 2 memory is restriction bit 0");
+    assert_eq!(r(mk().cxl_type_3_memory()), 1 << 1, "CXL type 3 memory is restriction bit 1");
+    assert_eq!(r(mk().volatile()), 1 << 2);
+    assert_eq!(r(mk().persistent()), 1 << 3);
+    assert_eq!(r(mk().fixed_configuration()), 1 << 4);
+    assert_eq!(r(mk().cxl_type_3_memory().volatile().cxl_type_3_memory()), (1 << 1) | (1 << 2));
+}
+#[test]
+fn c18_cedt_too_many_xor_maps_refused() {
+    use acpi_tables::cedt::*;
+    let mut x = XorInterleaveMath::new(InterleaveGranularity::Granularity256b);
+    for i in 0..256u64 {
+        x.add_xormap(i);
+    }
+    let r = refuses(|| ser(&x));
+    if let Err(b) = r {
+        panic!("CXIMS with 256 bitmaps returned: bitmap count field {}, record length {}", b[7], le16_at(&b, 2));
+    }
+}
